@@ -188,10 +188,12 @@ Print Assumptions no_computation_begins_after_end.
     PROVED (partial): when the system has come to rest after the end of a subscription, its rerunner holds
     no computation (Stop handed it to release()), no goroutine is left, every resource node that took part
     in a dependency and has no dependant left has been released with exactly one Cleanup call (C08's
-    [cleanup_exactly_once_at_quiescence]), and no Cleanup callback anywhere ran twice.  Missing: that the
-    nodes registered by [rid]'s computations have no dependant left once [rid]'s computation was released
-    (a statement about release() walking the in-edges that Reactive/ does not provide in this form); at the
-    level of the rerunner interface that part is [released_when_stopped] above. *)
+    [cleanup_exactly_once_at_quiescence]), every resource node all of whose registrants - the computations that
+    called AddDependency on it - are released has no dependant left and had its one Cleanup call (C08's
+    [cleanup_exactly_once_after_last_registrant_released]), and no Cleanup callback anywhere ran twice.
+    Missing: that every computation of a stopped rerunner is itself released at rest (an ownership invariant for
+    unreleased computation nodes that Reactive/ does not provide); at the level of the rerunner interface that
+    part is [released_when_stopped] above. *)
 Theorem released_after_end_partial : forall w p rid,
   preachable w p -> stopped_in (fst p) rid = true -> RR.quiescent (snd p) ->
   RR.r_comp (RR.getr (snd p) rid) = None
@@ -199,6 +201,9 @@ Theorem released_after_end_partial : forall w p rid,
   /\ (forall n, RG.n_had (RR.getN (snd p) n) = true -> RG.n_out (RR.getN (snd p) n) = [] ->
                 RG.n_hrel (RR.getN (snd p) n) <> None ->
                 RG.n_rel (RR.getN (snd p) n) = true /\ RG.n_cln (RR.getN (snd p) n) = 1)
+  /\ (forall n, RG.n_had (RR.getN (snd p) n) = true -> RG.n_hrel (RR.getN (snd p) n) <> None ->
+                (forall m, In n (RG.n_ins (RR.getN (snd p) m)) -> RG.n_rel (RR.getN (snd p) m) = true) ->
+                RG.n_out (RR.getN (snd p) n) = [] /\ RG.n_rel (RR.getN (snd p) n) = true /\ RG.n_cln (RR.getN (snd p) n) = 1)
   /\ (forall n, RG.n_cln (RR.getN (snd p) n) <= 1).
 Proof. exact ProofsProduct.released_after_end_l. Qed.
 Print Assumptions released_after_end_partial.
